@@ -12,6 +12,7 @@ import json
 import os
 import random
 import shutil
+import time
 
 from .. import core
 from .. import lib_sched as L
@@ -169,7 +170,7 @@ def run(ctx):
     phases = {}
     ctx.cover['phase_wall_s'] = phases
     # ---- 1. design-level model checking of the traversal
-    if os.environ.get('VERIF_SKIP_MC'):     # development only (mutation runs): skip the design-level MC
+    if os.environ.get('VERIF_SKIP_MC') or ctx.replay:   # VERIF_SKIP_MC: development only (mutation runs); replay: one case only
         pass
     elif quick:
         ctx.mc('MC_SchedProcess', mc_cfg(ctx, 'mcq', 3, ('proc', 'mod'), 1), timeout=900, required_actions=('SNext',))
@@ -305,7 +306,10 @@ def shrink_many(ctx, todo, max_rounds, observe_fn):
     cur = {tag: dict(case, P={k: v for k, v in case['P'].items() if k != 'chars'}, layout=0, plain=True)
            for tag, (case, _) in todo.items()}
     active = set(todo)
+    deadline = time.time() + (45 if ctx.quick else 400)
     for rnd in range(max_rounds):
+        if time.time() > deadline:
+            break
         batch, owner = [], []
         for tag in sorted(active):
             case = cur[tag]
@@ -338,3 +342,47 @@ def shrink_many(ctx, todo, max_rounds, observe_fn):
         if not active:
             break
     return cur
+
+
+def selftest(ctx):
+    """Binding check: accepted probe traces must be rejected once a recorded field is corrupted."""
+    cproj = C21.corpus_project()
+    cpaths, search = C21.corpus_paths()
+    name, cfg, _, _ = C21.CORPUS[0]
+    cfg_dict, seeds = L.render_config(cfg, L.Layout(plain=True), enable_imports=True)
+    sched = L.build_scheduler(None, cfg_dict, seeds, True, paths=search)
+    graph = L.project_graph(sched, cpaths)
+    cases, expect = [], []
+    for man in ({'filter': ['proc', 'mod'], 'reverse': False, 'filegraph': False, 'procign': False, 'plan': False},
+                {'filter': ['proc'], 'reverse': True, 'filegraph': False, 'procign': False, 'plan': True},
+                {'filter': ['proc'], 'reverse': False, 'filegraph': True, 'procign': False, 'plan': False}):
+        visits, raised = process_case(sched, graph, cpaths, man)
+        b = {'P': L.tla_project(cproj), 'C': cfg, 'graph': graph, 'man': man, 'visits': visits, 'raised': raised, 'payload': True}
+        cases.append(b)
+        expect.append('ok')
+        for what in ('drop-visit', 'dup-visit', 'reverse-order', 'wrong-role', 'wrong-targets', 'wrong-method'):
+            v = json.loads(json.dumps(visits))
+            if what == 'drop-visit':
+                v.pop()
+            elif what == 'dup-visit':
+                v.append(v[0])
+            elif what == 'reverse-order':
+                v = v[::-1]
+            elif what == 'wrong-role' and not man['filegraph']:
+                v[0]['role'] = 'driver'
+            elif what == 'wrong-targets' and not man['filegraph']:
+                v[0]['targets'] = v[0]['targets'] + ['bogus']
+            elif what == 'wrong-method':
+                v[0]['meth'] = 'module' if v[0]['meth'] != 'module' else 'file'
+            else:
+                continue
+            cases.append(dict(b, visits=v))
+            expect.append('reject')
+    verdicts = ctx.validate('Trace_SchedProcess', 'Trace_SchedProcess', cases)
+    bad = [(i, verdicts[i]) for i in range(len(cases)) if (verdicts[i][0]) != (expect[i] == 'ok')]
+    if bad:
+        print(f'SELFTEST-FAILED C22: {bad[:5]}')
+        return 2
+    print(f'SELFTEST-OK C22: {expect.count("ok")} accepted traces, {expect.count("reject")} corrupted copies rejected '
+          f'({sorted({verdicts[i][1] for i in range(len(cases)) if expect[i] == "reject"})})')
+    return 0
